@@ -375,15 +375,15 @@ Definition sum_values (l : list note_row) : Z := fold_right (fun r a => r_value 
 
 (** [ironwood_active]: after NU6.3 the Orchard turnstile lets value only leave the pool: change
     returned to Orchard must be strictly less than the step's Orchard inputs. *)
-Definition step_from_parts (ironwood_active : bool) (inputs : list note_row) (anchor : Z)
-    (pay : Z) (cs : list (cpool * Z)) (fee : Z) : outcome step perr :=
-  let input_total := sum_values inputs in
+Definition step_from_parts (ironwood_active : bool) (inputs : list note_row) (tids : list Z) (tvalue : Z)
+    (anchor : Z) (pay : Z) (cs : list (cpool * Z)) (fee : Z) : outcome step perr :=
+  let input_total := tvalue + sum_values inputs in
   let output_total := pay + (change_total cs + fee) in
   let orchard_in := sum_values (of_pool Orchard inputs) in
   let orchard_change := change_total (change_in Orchard cs) in
   if ironwood_active && (0 <? orchard_change) && (orchard_in <=? orchard_change) then Err EProposal
   else if input_total =? output_total
-  then Ok (Step (map (fun r => (r_pool r, r_id r)) inputs) input_total [] pay cs fee (Some anchor))
+  then Ok (Step (map (fun r => (r_pool r, r_id r)) inputs) input_total tids pay cs fee (Some anchor))
   else Err EBalance.
 
 Definition ref_eqb (a b : pool * Z) : bool := pool_eqb (fst a) (fst b) && (snd a =? snd b).
@@ -398,212 +398,3 @@ Fixpoint nodup_refs (l : list (pool * Z)) : bool :=
 Definition multi_step (steps : list step) : outcome (list step) perr :=
   if nodup_refs (concat (map s_inputs steps)) then Ok steps else Err EProposal.
 
-(** ** GreedyInputSelector::propose_transaction, shielded inputs only *)
-
-Inductive change_result :=
-| OBal (cs : list (cpool * Z)) (fee : Z)
-| OInsuff (required : Z)
-| ODust (ids : list (pool * Z))
-| OErr.
-
-(** selectable_pool_preference, then restricted to the pools the spend policy permits *)
-Definition pool_preference (ironwood_active prefer_orchard_family : bool) (permitted : list pool) : list pool :=
-  let pref :=
-    if prefer_orchard_family
-    then (if ironwood_active then [Ironwood] else []) ++ [Orchard; Sapling]
-    else [Sapling] ++ (if ironwood_active then [Ironwood] else []) ++ [Orchard] in
-  filter (fun p => existsb (pool_eqb p) permitted) pref.
-
-Definition pool_value (sel : list note_row) (p : pool) : Z := sum_values (of_pool p sel).
-
-(** The pools actually spent: the first pool (in preference order) whose selected notes cover the
-    required amount alone, else pools accumulated in preference order. *)
-Fixpoint accumulate_pools (sel : list note_row) (required running : Z) (prefs : list pool) : list pool :=
-  match prefs with
-  | [] => []
-  | p :: t => if required <=? running then []
-              else p :: accumulate_pools sel required (running + pool_value sel p) t
-  end.
-
-Definition use_pools (sel : list note_row) (required : Z) (prefs : list pool) : list pool :=
-  match find (fun p => required <=? pool_value sel p) prefs with
-  | Some p => [p]
-  | None => accumulate_pools sel required 0 prefs
-  end.
-
-Definition trim (sel : list note_row) (used : list pool) : list note_row :=
-  of_pool Sapling (if existsb (pool_eqb Sapling) used then sel else [])
-  ++ of_pool Orchard (if existsb (pool_eqb Orchard) used then sel else [])
-  ++ of_pool Ironwood (if existsb (pool_eqb Ironwood) used then sel else []).
-
-Section Propose.
-  (** The change strategy: any function of the anchor it is given and of the offered inputs. *)
-  Variable change : Z -> list note_row -> change_result.
-
-  Variable db : list note_row.
-  Variable e : env.            (* [e_anchor e] is the anchor the data source selects at for [pol] *)
-  Variable acct : Z.
-  Variable pay : Z.
-  Variable prefs : list pool.
-  Variable pol : policy.
-  Variable lp : lip.
-  Variable iw : bool.          (* Ironwood (NU6.3) active at the target height *)
-  Variable step_anchor : Z.    (* the anchor_height argument: what the step binds *)
-  Variable single : bool.      (* NoteSelection::PreferSingle *)
-
-  Definition select_all (required : Z) (exclude : list (pool * Z)) : list note_row :=
-    match e_anchor e with
-    | None => []
-    | Some anchor =>
-        concat (map (fun p => if existsb (pool_eqb p) prefs
-                              then select_matching db e acct p anchor required pol exclude (LFPolicy lp)
-                              else []) [Sapling; Orchard; Ironwood])
-    end.
-
-  (** select_single_spendable_note: pools in preference order, the first covering note wins *)
-  Fixpoint select_single_in (anchor required : Z) (exclude : list (pool * Z)) (ps : list pool) : list note_row :=
-    match ps with
-    | [] => []
-    | p :: t => match select_single_pool db e acct p anchor required pol exclude (LFPolicy lp) with
-                | Some r => [r]
-                | None => select_single_in anchor required exclude t
-                end
-    end.
-
-  Definition select_next (required : Z) (exclude : list (pool * Z)) : list note_row :=
-    let single_note :=
-      if single then match e_anchor e with
-                     | None => []
-                     | Some anchor => select_single_in anchor required exclude prefs
-                     end
-      else [] in
-    match single_note with
-    | [] => select_all required exclude
-    | l => l
-    end.
-
-  Fixpoint greedy (fuel : nat) (sel : list note_row) (prior_available required : Z)
-      (exclude : list (pool * Z)) : outcome step perr :=
-    match fuel with
-    | O => Err EOutOfFuel
-    | S fuel' =>
-        let inputs := trim sel (use_pools sel required prefs) in
-        let continue (required' : Z) (exclude' : list (pool * Z)) :=
-          let sel' := select_next required' exclude' in
-          let new_available := sum_values sel' in
-          if new_available <=? prior_available then Err EInsufficient
-          else greedy fuel' sel' new_available required' exclude' in
-        match change step_anchor inputs with
-        | OBal cs fee => step_from_parts iw inputs step_anchor pay cs fee
-        | ODust ids => continue required (exclude ++ ids)
-        | OInsuff req => continue req exclude
-        | OErr => Err EChange
-        end
-    end.
-
-  Definition propose_transaction (fuel : nat) : outcome step perr :=
-    greedy fuel [] 0 0 [].
-End Propose.
-
-(** ** propose_transfer *)
-
-(** ZIP 318 canonical denominations {1,2,5} * 10^k within [MAX_RESIDUAL_VALUE, DENOM_CAP]. *)
-Definition canonical_denominations : list Z :=
-  flat_map (fun k => [1 * 10 ^ k; 2 * 10 ^ k; 5 * 10 ^ k]) [6; 7; 8; 9; 10; 11] ++ [10 ^ 12].
-
-Definition is_canonical_denomination (v : Z) : bool := existsb (Z.eqb v) canonical_denominations.
-
-(** ConfirmationsPolicy::bucketed: the policy whose anchor is one grid interval below the most
-    recent boundary at or below the ordinary anchor; None when that is not above [activation]. *)
-Definition bucketed (pol : policy) (interval target activation : Z) : option policy :=
-  let ordinary := ssub target (p_trusted pol) in
-  let most_recent := ordinary - ordinary mod interval in
-  if most_recent <? interval then None else
-  let boundary := most_recent - interval in
-  if boundary <=? activation then None else
-  if target <? boundary then None else
-  let b := target - boundary in
-  if b =? 0 then None else Some (Pol b (Z.max (p_untrusted pol) b)).
-
-(** What the wallet reports about the bucketed attempt (oracle inputs): the ZIP 318 grid, the
-    NU6.3 activation height, whether the Orchard anchor at the boundary is computable, the anchor
-    the data source selects at under the bucketed policy, and the canonical fee. *)
-Record canon_in := CI {
-  c_interval : Z; c_activation : Z; c_boundary : Z; c_computable : bool;
-  c_sel_anchor : option Z; c_fee : option Z
-}.
-
-(** Step::is_canonical_crossing *)
-Definition is_canonical_crossing (ci : canon_in) (single_payment orchard_out : bool) (s : step) : bool :=
-  (length (filter (fun x => pool_eqb (fst x) Orchard) (s_inputs s)) =? 1)%nat
-  && (length (filter (fun x => pool_eqb (fst x) Ironwood) (s_inputs s)) =? 0)%nat
-  && (change_count (cpool_is Ironwood) (s_changes s) =? 0)%nat
-  && (change_count (cpool_is Orchard) (s_changes s) <=? 1)%nat
-  && (change_count (cpool_is Sapling) (s_changes s) =? 0)%nat
-  && (change_count (fun c => match c with CT => true | _ => false end) (s_changes s) =? 0)%nat
-  && single_payment && orchard_out && is_canonical_denomination (s_pay s)
-  && match s_anchor s with Some a => a mod c_interval ci =? 0 | None => false end
-  && match c_fee ci with Some f => s_fee s =? f | None => false end.
-
-Definition finish (db : list note_row) (e : env) (tip : option Z) (lock : option (Z * Z)) (s : step)
-    : outcome (list step) perr :=
-  match multi_step [s] with
-  | Ok steps =>
-      match lock with
-      | None => Ok steps
-      | Some (owner, for_blocks) =>
-          match lock_outputs tip owner (e_target e + for_blocks) (s_inputs s) db with
-          | Some _ => Ok steps
-          | None => Err ELocked
-          end
-      end
-  | Err x => Err x
-  | Panic => Panic
-  end.
-
-(** propose_transfer: heights; when NU6.3 is active and the request is one payment of a
-    canonical denomination, first an Orchard-only, single-note-preferring attempt against the
-    bucketed anchor, kept only if the step is a canonical crossing; else the ordinary attempt; then
-    the optional lock of the selected inputs. [canon = None]: NU6.3 not active. *)
-Definition propose_transfer (change : Z -> list note_row -> change_result) (fuel : nat)
-    (db : list note_row) (e : env) (tip : option Z) (acct pay : Z) (single_payment orchard_out : bool)
-    (permitted : list pool) (pol : policy) (lp : lip) (lock : option (Z * Z)) (canon : option canon_in)
-    : outcome (list step) perr :=
-  match e_anchor e with
-  | None => Err ESyncRequired
-  | Some anchor =>
-      let iw := match canon with Some _ => true | None => false end in
-      let ordinary (_ : unit) :=
-        match propose_transaction change db e acct pay (pool_preference iw orchard_out permitted) pol lp iw anchor false fuel with
-        | Ok s => finish db e tip lock s
-        | Err x => Err x
-        | Panic => Panic
-        end in
-      let attempt :=
-        match canon with
-        | None => None
-        | Some ci =>
-            if single_payment && is_canonical_denomination pay && existsb (pool_eqb Orchard) permitted then
-              match bucketed pol (c_interval ci) (e_target e) (c_activation ci) with
-              | Some bp =>
-                  let boundary := ssub (e_target e) (p_trusted bp) in
-                  if negb (boundary =? c_boundary ci) then Some (Err EOther)   (* oracle mismatch *)
-                  else if c_computable ci then
-                    Some (propose_transaction change db (Env (e_target e) (c_sel_anchor ci) (e_ranges e)) acct pay
-                            (pool_preference true orchard_out [Orchard]) bp lp true boundary true fuel)
-                  else None
-              | None => None
-              end
-            else None
-        end in
-      match attempt with
-      | Some (Ok s) =>
-          match canon with
-          | Some ci => if is_canonical_crossing ci single_payment orchard_out s then finish db e tip lock s else ordinary tt
-          | None => ordinary tt
-          end
-      | Some (Err EInsufficient) | None => ordinary tt
-      | Some (Err x) => Err x
-      | Some Panic => Panic
-      end
-  end.
